@@ -56,6 +56,8 @@ REQUIRED_COVER = [
     "mutator:set",
     "mutator:set_edge",
     "mutator:insert",
+    "mutator_through_held_view",
+    "add_to_group_through_held_view_after_group_changed",
     "mutator:record",
     "mutator:stimulate",
     "mutator:clamp",
@@ -1191,7 +1193,7 @@ def _multi_subset(a, b):
     return True
 
 
-def judge_mutator(ref, rv, name, before, d):
+def judge_mutator(ref, rv, name, before, d, lo_exclude=frozenset()):
     """Returns None if the diff is confined as the property demands, else (what, message)."""
     N, E = set(rv.nodes), set(rv.edges)
     leak = ref.channels.get("Leak", set())
@@ -1219,7 +1221,7 @@ def judge_mutator(ref, rv, name, before, d):
         prob = rows_between("edge", Ea, E, {SYN_A + "_gS"})
         ignore = {"edge_rows", "edge_cols"}
     elif name == "insert":
-        prob = rows_between("node", N, N, HH_COLS)
+        prob = rows_between("node", N - set(lo_exclude), N, HH_COLS)  # rows that already carry HH with default values need not change
         ignore = {"node_rows", "node_cols", "channels"}
     elif name == "insert_existing":
         prob = rows_between("node", N, N, LEAK_COLS)
@@ -1297,12 +1299,45 @@ def _mut_class(name):
             "add_to_group_existing": "add_to_group"}.get(name, name)
 
 
-def run_b_one(M, chain, name, out, base_snap=None):
+# "held" views: the view object is created first, THEN the module is edited through another view, THEN the mutator is called through
+# the (by now possibly stale) held view.  Expected effect: exactly that of a fresh view at that moment.
+HELD_PAIRS = [("group_created_elsewhere", "add_to_group"), ("group_extended_elsewhere", "add_to_group_existing"),
+              ("recorded_elsewhere", "record"), ("stimulated_elsewhere", "stimulate"), ("clamped_elsewhere", "clamp"),
+              ("inserted_elsewhere", "insert"), ("set_elsewhere", "set"), ("group_created_elsewhere", "set"),
+              ("inserted_elsewhere", "add_to_group")]
+
+
+def apply_disturbance(mod, n, name):
+    import jax.numpy as jnp
+    from jaxley.channels import HH
+
+    first, last = mod.select(nodes=[0]), mod.select(nodes=[n - 1])
+    if name == "group_created_elsewhere":
+        first.add_to_group("gnew")
+    elif name == "group_extended_elsewhere":
+        last.add_to_group("ga")
+    elif name == "recorded_elsewhere":
+        first.record("v", verbose=False)
+    elif name == "stimulated_elsewhere":
+        last.stimulate(jnp.asarray([0.7, 0.8, 0.9]), verbose=False)
+    elif name == "clamped_elsewhere":
+        first.clamp("v", jnp.asarray([-50.0, -51.0, -52.0]), verbose=False)
+    elif name == "inserted_elsewhere":
+        first.insert(HH())
+    elif name == "set_elsewhere":
+        first.set("radius", 3.3)
+    else:
+        raise ValueError(name)
+
+
+def run_b_one(M, chain, name, out, base_snap=None, disturb=None):
     """One mutator through one view on a fresh deepcopy. Appends to out; returns nothing."""
     mod = copy.deepcopy(M.module)
     before = base_snap or M.snap
     rv, v = M.ref.root("local"), mod
     wit = {"part": "B", "model": M.name, "chain": chain, "mutator": name}
+    if disturb:
+        wit["held_after"] = disturb
     for k, st in enumerate(chain):
         ex = rv.step(st)
         try:
@@ -1318,6 +1353,14 @@ def run_b_one(M, chain, name, out, base_snap=None):
         out["violations"].append({"sig": _sig_a(bad[0], chain[-1] if chain else None, M.name), "witness": wit,
                                   "msg": f"{bad[0]}: observed {bad[1]} expected {bad[2]}"})
         return
+    if disturb:
+        try:
+            apply_disturbance(mod, M.ref.n, disturb)
+        except Exception as e:
+            out["refusals"].append(f"disturbance:{disturb}:{type(e).__name__}")
+            return
+        before = snapshot(mod)
+        out["transitions"] += 1
     out["evals"] += 1
     out["mut_apps"] += 1
     out["transitions"] += 1
@@ -1333,11 +1376,18 @@ def run_b_one(M, chain, name, out, base_snap=None):
             out["refusals"].append(f"mutator:{name}:{M.ref.kind}:{type(e).__name__}")
         return
     d = diff(before, snapshot(mod))
-    verdict = judge_mutator(M.ref, rv, name, before, d)
+    verdict = judge_mutator(M.ref, rv, name, before, d, lo_exclude={0} if disturb == "inserted_elsewhere" else frozenset())
     if verdict is not None:
+        sig = {"part": "B", "rule": "confinement:" + verdict[0], "mutator": name}
+        if disturb:
+            sig["held_view"] = True
         out["violations"].append({
-            "sig": {"part": "B", "rule": "confinement:" + verdict[0], "mutator": name},
-            "witness": wit, "msg": f"view nodes {list(rv.nodes)} edges {list(rv.edges)}: {verdict[1]}"[:500]})
+            "sig": sig,
+            "witness": wit, "msg": (f"(view held while {disturb}) " if disturb else "") + f"view nodes {list(rv.nodes)} edges {list(rv.edges)}: {verdict[1]}"[:500]})
+    elif disturb:
+        out["cover"].append("mutator_through_held_view")
+        if name.startswith("add_to_group"):
+            out["cover"].append("add_to_group_through_held_view_after_group_changed")
     else:
         out["cover"].append("mutator:" + _mut_class(name))
         out["cover"].append("mutator_variant:" + name)
@@ -1355,6 +1405,10 @@ def work_b(item):
     out["b_views"] = 1
     for name in item["mutators"]:
         run_b_one(M, item["chain"], name, out)
+    if item["chain"]:
+        for dist, name in HELD_PAIRS:
+            if name in item["mutators"]:
+                run_b_one(M, item["chain"], name, out, disturb=dist)
     d = diff(M.snap, snapshot(M.module))
     if not diff_is_empty(d):
         out["violations"].append({"sig": {"part": "B", "rule": "deepcopy_not_isolated"},
@@ -1400,7 +1454,7 @@ def replay(w):
         return []
     out = _new_out()
     if w["part"] == "B":
-        run_b_one(M, w["chain"], w["mutator"], out)
+        run_b_one(M, w["chain"], w["mutator"], out, disturb=w.get("held_after"))
         return out["violations"]
     mod = copy.deepcopy(M.module)
     chain = w["chain"]
